@@ -79,7 +79,7 @@ class RunResult(object):
 
 
 def execute(prog, faults, extractor=None, fail_save=False, rate=None, enabled=True, kind='memory', ignore_forced=False,
-            skipped=False, copy=None, rng_seed=5, scripted_draws=None, recorder=None, spy=None, box=None, with_twin=True):
+            skipped=False, copy=None, rng_seed=5, scripted_draws=None, recorder=None, spy=None, box=None, with_twin=True, built=None):
     """Runs the decorated program under ``faults`` (and its twin). The caller closes res.box_cm if it is not None."""
     from playback.tape_recorder import TapeRecorder
     res = RunResult()
@@ -112,8 +112,12 @@ def execute(prog, faults, extractor=None, fail_save=False, rate=None, enabled=Tr
         res.recorder._random.script = list(scripted_draws)
     res.log_start = len(res.spy.log)
     res.draws_start = len(getattr(res.recorder._random, 'draws', []))
-    res.live = Built(p, res.recorder, World(prog['seed_world'], raise_rate=prog['opts']['raise_rate']), faults=faults,
-                     extractor_behaviour=extractor)
+    if built is not None:
+        # the same class is invoked again (its recording parameters were registered by the first run)
+        res.live = built.rearm(faults=faults)
+    else:
+        res.live = Built(p, res.recorder, World(prog['seed_world'], raise_rate=prog['opts']['raise_rate']), faults=faults,
+                         extractor_behaviour=extractor)
     import time as _t
     res.utc_before = _now_utc()
     res.t_before = _t.time()
